@@ -259,7 +259,14 @@ func (s *SFTPStore) Prune(ctx context.Context, ids map[ChunkID]struct{}) error {
 		// See if the chunk we're looking at is in the list we want to keep, if not
 		// remove it.
 		if _, ok := ids[id]; !ok {
-			if err = s.RemoveChunk(id); err != nil {
+			// Remove it using the connection we already hold. Going through
+			// RemoveChunk() would wait for another one from the pool, forever
+			// if the pool has only this one.
+			name := c.nameFromID(id)
+			if _, err := c.client.Stat(name); err != nil {
+				return ChunkMissing{id}
+			}
+			if err = c.client.Remove(name); err != nil {
 				return err
 			}
 		}
